@@ -251,11 +251,20 @@ def check_pareto(ctx):
     if loops:
         # the original: for i, c_ in enumerate(costs): if eff[i]: eff[eff] = np.any(costs[eff] <= c_, axis=1)
         stores = [a_ for a_ in ast.walk(loops[0]) if isinstance(a_, ast.Assign) and isinstance(a_.targets[0], ast.Subscript)]
-        ok = len(loops) == 1 and len(stores) == 1 and U(stores[0].value).replace(' ', '').startswith('np.any(%s[' % c) and 'axis=1' in U(stores[0].value).replace(' ', '') \
-            and any(isinstance(x, ast.Compare) and isinstance(x.ops[0], ast.LtE) for x in ast.walk(stores[0].value))
-        if not ok:
+        val = stores[0].value if len(stores) == 1 else None
+        cmp_ = None
+        if len(loops) == 1 and isinstance(val, ast.Call) and U(val.func) in ('np.any', 'numpy.any') and len(val.args) == 1 and isinstance(val.args[0], ast.Compare) \
+                and len(val.args[0].ops) == 1 and any(k.arg == 'axis' and U(k.value) == '1' for k in val.keywords):
+            l_, op_, r_ = val.args[0].left, val.args[0].ops[0], val.args[0].comparators[0]
+            FLIP = {ast.LtE: ast.GtE, ast.GtE: ast.LtE, ast.Lt: ast.Gt, ast.Gt: ast.Lt}
+            if U(r_).replace(' ', '').startswith(c + '[') and type(op_) in FLIP:
+                l_, op_, r_ = r_, FLIP[type(op_)](), l_
+            if U(l_).replace(' ', '').startswith(c + '[') and isinstance(r_, ast.Name):
+                cmp_ = type(op_)
+        if cmp_ is None:
             raise AnalysisError('pareto_efficient: the mask loop is in no recognised form')
-        ctx.ob('pareto-front', fi, stores[0], True, 'shrinking-mask loop: a point stays while some cost of it is <= the pivot\'s')
+        ctx.ob('pareto-front', fi, stores[0], cmp_ is ast.LtE, 'shrinking-mask loop: a point stays while some cost of it is <= the pivot\'s (the pivot itself '
+               'included); the source compares with `%s`' % {ast.LtE: '<=', ast.Lt: '<', ast.GtE: '>=', ast.Gt: '>'}.get(cmp_, '?'))
         return
     ls = [x for x in ast.walk(fi.node) if isinstance(x, ast.Call) and U(x.func) in ('np.lexsort', 'numpy.lexsort') and len(x.args) == 1
           and isinstance(x.args[0], (ast.Tuple, ast.List)) and len(x.args[0].elts) == 2]
